@@ -83,6 +83,7 @@ def case_strategy(draw, tier):
                                           "closest_match", "random_draw", None])),
         "wave1": wave1, "wave2": wave2, "flavour": flavour, "resync": draw(st.sampled_from([False, False, True])),
         "reconnect": draw(st.sampled_from([False, False, True])),
+        "release_account": draw(st.sampled_from([None, None, None, None, 0, 1])),
         "choices": draw(st.lists(st.integers(0, 11), max_size=300)),
         "sticky": draw(st.booleans()),
         "choices_seed": draw(st.sampled_from([None, draw(st.integers(0, 2 ** 32))])),
@@ -228,6 +229,24 @@ async def run_async(case, out):
                     seen.add(address)
                     await ledger.db.save_transaction_io(tx, address, hh, f'{tx.id}:{h}:')
         out.label("resync_while_held")
+    if case.get("release_account") is not None and held:
+        # utxo_release for ONE account while transactions are pending: that account's outputs are given back by request, the
+        # other account's held outputs stay held
+        a = case["release_account"]
+        await env.accounts[a].release_all_outputs()
+        avail = await available()
+        for i, pts in held.items():
+            other = {p for p in pts if all_points[p]["acct"] != a}
+            leak = other & avail
+            out.check(not leak, "held-output-released-by-another-accounts-release",
+                      "build %d: %d outputs of account %d became available when account %d was released, e.g. %r" % (
+                          i, len(leak), 1 - a, a, next(iter(leak), None)))
+        out.label("scoped_release_while_held")
+        for i, tx in built:
+            await ledger.release_tx(tx)
+        final = await available()
+        out.check(final == set(all_points), "outputs-not-all-available-at-end", "missing %d" % len(set(all_points) - final))
+        return
     if case.get("reconnect"):
         # the connection to the wallet server is re-established while transactions are pending: what start() registered for
         # on_connected runs again
@@ -357,6 +376,6 @@ def run_case(case):
 
 PARTS = [
     Part("concurrent_builds", lambda tier: case_strategy(tier), run_case, 250, 2500, quick_shards=8, thorough_shards=16,
-         essential=("w1_built:2", "resolve:accept", "resolve:release", "resolve:fail", "resolve:cancel", "resolve:timeout", "resolve:fail_concurrent", "built_during_refused_broadcast", "reconnect_while_held", "wave2", "switches:>=10", "resync_while_held",
+         essential=("w1_built:2", "resolve:accept", "resolve:release", "resolve:fail", "resolve:cancel", "resolve:timeout", "resolve:fail_concurrent", "built_during_refused_broadcast", "reconnect_while_held", "scoped_release_while_held", "wave2", "switches:>=10", "resync_while_held",
                     "utxos:small_change")),
 ]
